@@ -93,21 +93,17 @@ def knownFpGap (l : List FpField) : Bool :=
 client authentication look at comes from the client's `tls.Config` (then the premise of
 `tls_uniform_paths` is discharged), or it is the known gap. Anything else — e.g. a closure
 that stops copying `RootCAs` or `InsecureSkipVerify` — breaks the build of this module.
-**After `fixes/C12-5` is applied** replace by `theorem fp_covers : fpCovers fpCopied = true := by decide`. -/
-theorem fp_covers_or_known : fpCovers fpCopied = true ∨ knownFpGap fpCopied = true := by decide
+`fixes/C12-5` (/repo f3ce120) repaired the gap: only the covering shape is accepted now. -/
+theorem fp_covers : fpCovers fpCopied = true := by decide
 
 /-- `tls_uniform_paths` with its premise discharged over the regenerated fact. -/
 theorem tls_uniform_paths_generated :
     (∀ (h : Hooks) (accepts : VerifyCfg → ServerCert → Bool) (p q : DialPath) (o o' : Bool) (host : Nat)
         (read : Option TlsCfg) (c c' : TlsCfg) (cert : ServerCert),
       pathCfg fpCopied h p o host read = some c → pathCfg fpCopied h q o' host read = some c' →
-      accepts (verifyPart c) cert = accepts (verifyPart c') cert ∧ c.certs = c'.certs)
-    ∨ knownFpGap fpCopied = true := by
-  rcases fp_covers_or_known with h | h
-  · left
-    intro hk accepts p q o o' host read c c' cert hp hq
-    exact tls_uniform_paths fpCopied h hk accepts p q o o' host read c c' cert hp hq
-  · right; exact h
+      accepts (verifyPart c) cert = accepts (verifyPart c') cert ∧ c.certs = c'.certs) := by
+  intro hk accepts p q o o' host read c c' cert hp hq
+  exact tls_uniform_paths fpCopied fp_covers hk accepts p q o o' host read c c' cert hp hq
 
 /-- Whatever the fingerprint closure copies: without `SetTLSFingerprint*` (and without the two
 user functions) every dial path — direct, proxy tunnel, HTTP/2's own dial, QUIC — is uniform
